@@ -15,6 +15,17 @@ CLAIMS = {
         technique="path-sensitive must-fact dataflow (guard dominance) with return-value-sensitive summaries and "
                   "interprocedural obligation propagation over clang CFGs",
         design="5 C03"),
+    "C04": dict(
+        text="Clause-level structural decision: the source-address comparison (family equality, memcmp over the bound "
+             "address and the request source, right field and length per family) sits on every accepting path of the "
+             "guard when checking is on; DNS request handlers write nothing into a session record before a guard for "
+             "that session passed; tun traffic is dispatched only to the index returned by the live/logged-in/address "
+             "lookup; a slot is taken over only if unused or expired; the peer address is rebound only at slot hand-out "
+             "or after the raw-login digest matched; one expiry constant and two complementary forms everywhere. The "
+             "behaviour exactly at the 60 s instant and multi-session interleavings are not decided.",
+        technique="must-fact dataflow with history facts and summaries; return-path enumeration of the guard; "
+                  "predicate normalisation for the expiry tests",
+        design="5 C04"),
 }
 
 NA = {
